@@ -58,6 +58,8 @@ def sandbox():
             f.write(content)
     os.chmod(os.path.join(root, "unreadable.txt"), 0)
     os.makedirs(os.path.join(root, "empty"))
+    # a spelling of the root that only the operating system resolves correctly: <base>/lnk/.. with lnk -> site/sub
+    os.symlink(os.path.join(root, "sub"), os.path.join(base, "lnk"))
     # an entry that is neither a regular file nor a directory (never opened: a socket cannot be)
     import socket
     sk = socket.socket(socket.AF_UNIX)
@@ -118,7 +120,7 @@ def generate(rng, tier):
     for _ in range(n):
         k = rng.randrange(0, 6)
         path = rng.choice(["", "/", "/", "//"]) + rng.choice(["/", "//"]).join(rng.choice(SEGS) for _ in range(k))
-        cases.append(mk(path, rng.choice(METHODS), rng.random() < 0.5, rng.choice(["abs", "abs", "slash", "rel"]),
+        cases.append(mk(path, rng.choice(METHODS), rng.random() < 0.5, rng.choice(["abs", "abs", "slash", "rel", "link"]),
                         rng.choice(["attr", "attr", "env"])))
     return cases
 
@@ -145,7 +147,8 @@ def do_request(case):
     t = case.split()
     path, method, index, rootkind, via = unhx(t[2]).decode(), t[3], t[4] == "1", t[5], t[6]
     sb = sandbox()
-    root = {"abs": sb["root"], "slash": sb["root"] + "/", "rel": os.path.relpath(sb["root"])}[rootkind]
+    root = {"abs": sb["root"], "slash": sb["root"] + "/", "rel": os.path.relpath(sb["root"]),
+            "link": os.path.join(sb["base"], "lnk", "..")}[rootkind]
     a = app()
     env = {"REQUEST_METHOD": method, "PATH_INFO": path.encode("utf-8", "surrogatepass").decode("latin-1"),
            "QUERY_STRING": "", "SERVER_NAME": "srv", "SERVER_PORT": "80", "SERVER_PROTOCOL": "HTTP/1.1",
